@@ -1,15 +1,303 @@
+//! C12 harness: recording Folder / Visitor over the real generated `Fold` / `Visitor` code,
+//! independent canonical walk derived from `{:?}`, and `ConstantOptimizer` once / twice.
+//!
+//! Every op takes `<src-hex>` (a Python module) followed by words the harness ignores (the generic
+//! tree the Lean driver works on; `tools/props/c12.py` derives it from the `dbg` answer).
 use pvh::*;
+use rustpython_ast::fold::Fold;
+use rustpython_ast::text_size::TextRange;
+use rustpython_ast::*;
 use rustpython_parser::{parse, Mode};
-fn handle(ws: &[&str]) -> String {
-    match ws {
-        ["dbg", t] => {
-            let s = unhex_str(t).unwrap();
-            match parse(&s, Mode::Module, "<x>") {
-                Ok(m) => format!("{:?}", m),
-                Err(e) => format!("err {:?}", e),
+
+thread_local! { static MODE: std::cell::Cell<u8> = std::cell::Cell::new(b'm'); }
+
+fn parse_mod(src: &str) -> Option<Mod> {
+    let mode = match MODE.with(|m| m.get()) {
+        b'x' => Mode::Expression,
+        b'i' => Mode::Interactive,
+        _ => Mode::Module,
+    };
+    guard(|| parse(src, mode, "<c12>").ok()).flatten()
+}
+
+fn rng<T: std::fmt::Debug>(r: &T) -> String {
+    let s = format!("{:?}", r);
+    if s == "()" {
+        "-".to_string()
+    } else {
+        s
+    }
+}
+
+// ---------------------------------------------------------------- recording folder
+struct RecFolder {
+    ev: Vec<String>,
+}
+impl Fold<TextRange> for RecFolder {
+    type TargetU = TextRange;
+    type Error = std::convert::Infallible;
+    type UserContext = ();
+    fn will_map_user(&mut self, user: &TextRange) -> Self::UserContext {
+        self.ev.push(format!("W:{}", rng(user)));
+    }
+    fn map_user(&mut self, user: TextRange, _context: ()) -> Result<TextRange, Self::Error> {
+        self.ev.push(format!("M:{}", rng(&user)));
+        Ok(user)
+    }
+}
+
+fn op_fold(src: &str) -> String {
+    let m = match parse_mod(src) {
+        Some(m) => m,
+        None => return "noparse".into(),
+    };
+    let orig = m.clone();
+    let mut f = RecFolder { ev: Vec::new() };
+    let folded = match f.fold_mod(m) {
+        Ok(x) => x,
+        Err(e) => match e {},
+    };
+    format!("eq={} ev={}", folded == orig, f.ev.join(","))
+}
+
+// ---------------------------------------------------------------- recording visitor
+struct RecVisitor {
+    ev: Vec<String>,
+}
+macro_rules! rec_visit {
+    (@body $self:ident $node:ident -) => {};
+    (@body $self:ident $node:ident $g:ident) => { $self.$g($node) };
+    ($( $m:ident $g:tt $t:ident ; )*) => {
+        $( fn $m(&mut self, node: $t<TextRange>) {
+            self.ev.push(format!("{}@{}", stringify!($t), rng(&node.range)));
+            rec_visit!(@body self node $g);
+        } )*
+    };
+}
+impl Visitor<TextRange> for RecVisitor {
+    rec_visit! {
+        visit_stmt_function_def generic_visit_stmt_function_def StmtFunctionDef;
+        visit_stmt_async_function_def generic_visit_stmt_async_function_def StmtAsyncFunctionDef;
+        visit_stmt_class_def generic_visit_stmt_class_def StmtClassDef;
+        visit_stmt_return generic_visit_stmt_return StmtReturn;
+        visit_stmt_delete generic_visit_stmt_delete StmtDelete;
+        visit_stmt_assign generic_visit_stmt_assign StmtAssign;
+        visit_stmt_type_alias generic_visit_stmt_type_alias StmtTypeAlias;
+        visit_stmt_aug_assign generic_visit_stmt_aug_assign StmtAugAssign;
+        visit_stmt_ann_assign generic_visit_stmt_ann_assign StmtAnnAssign;
+        visit_stmt_for generic_visit_stmt_for StmtFor;
+        visit_stmt_async_for generic_visit_stmt_async_for StmtAsyncFor;
+        visit_stmt_while generic_visit_stmt_while StmtWhile;
+        visit_stmt_if generic_visit_stmt_if StmtIf;
+        visit_stmt_with generic_visit_stmt_with StmtWith;
+        visit_stmt_async_with generic_visit_stmt_async_with StmtAsyncWith;
+        visit_stmt_match generic_visit_stmt_match StmtMatch;
+        visit_stmt_raise generic_visit_stmt_raise StmtRaise;
+        visit_stmt_try generic_visit_stmt_try StmtTry;
+        visit_stmt_try_star generic_visit_stmt_try_star StmtTryStar;
+        visit_stmt_assert generic_visit_stmt_assert StmtAssert;
+        visit_stmt_import generic_visit_stmt_import StmtImport;
+        visit_stmt_import_from generic_visit_stmt_import_from StmtImportFrom;
+        visit_stmt_global generic_visit_stmt_global StmtGlobal;
+        visit_stmt_nonlocal generic_visit_stmt_nonlocal StmtNonlocal;
+        visit_stmt_expr generic_visit_stmt_expr StmtExpr;
+        visit_stmt_pass - StmtPass;
+        visit_stmt_break - StmtBreak;
+        visit_stmt_continue - StmtContinue;
+        visit_expr_bool_op generic_visit_expr_bool_op ExprBoolOp;
+        visit_expr_named_expr generic_visit_expr_named_expr ExprNamedExpr;
+        visit_expr_bin_op generic_visit_expr_bin_op ExprBinOp;
+        visit_expr_unary_op generic_visit_expr_unary_op ExprUnaryOp;
+        visit_expr_lambda generic_visit_expr_lambda ExprLambda;
+        visit_expr_if_exp generic_visit_expr_if_exp ExprIfExp;
+        visit_expr_dict generic_visit_expr_dict ExprDict;
+        visit_expr_set generic_visit_expr_set ExprSet;
+        visit_expr_list_comp generic_visit_expr_list_comp ExprListComp;
+        visit_expr_set_comp generic_visit_expr_set_comp ExprSetComp;
+        visit_expr_dict_comp generic_visit_expr_dict_comp ExprDictComp;
+        visit_expr_generator_exp generic_visit_expr_generator_exp ExprGeneratorExp;
+        visit_expr_await generic_visit_expr_await ExprAwait;
+        visit_expr_yield generic_visit_expr_yield ExprYield;
+        visit_expr_yield_from generic_visit_expr_yield_from ExprYieldFrom;
+        visit_expr_compare generic_visit_expr_compare ExprCompare;
+        visit_expr_call generic_visit_expr_call ExprCall;
+        visit_expr_formatted_value generic_visit_expr_formatted_value ExprFormattedValue;
+        visit_expr_joined_str generic_visit_expr_joined_str ExprJoinedStr;
+        visit_expr_constant generic_visit_expr_constant ExprConstant;
+        visit_expr_attribute generic_visit_expr_attribute ExprAttribute;
+        visit_expr_subscript generic_visit_expr_subscript ExprSubscript;
+        visit_expr_starred generic_visit_expr_starred ExprStarred;
+        visit_expr_name generic_visit_expr_name ExprName;
+        visit_expr_list generic_visit_expr_list ExprList;
+        visit_expr_tuple generic_visit_expr_tuple ExprTuple;
+        visit_expr_slice generic_visit_expr_slice ExprSlice;
+        visit_comprehension generic_visit_comprehension Comprehension;
+        visit_excepthandler_except_handler generic_visit_excepthandler_except_handler ExceptHandlerExceptHandler;
+        visit_arguments generic_visit_arguments Arguments;
+        visit_arg generic_visit_arg Arg;
+        visit_keyword generic_visit_keyword Keyword;
+        visit_alias generic_visit_alias Alias;
+        visit_withitem generic_visit_withitem WithItem;
+        visit_match_case generic_visit_match_case MatchCase;
+        visit_pattern_match_value generic_visit_pattern_match_value PatternMatchValue;
+        visit_pattern_match_singleton generic_visit_pattern_match_singleton PatternMatchSingleton;
+        visit_pattern_match_sequence generic_visit_pattern_match_sequence PatternMatchSequence;
+        visit_pattern_match_mapping generic_visit_pattern_match_mapping PatternMatchMapping;
+        visit_pattern_match_class generic_visit_pattern_match_class PatternMatchClass;
+        visit_pattern_match_star generic_visit_pattern_match_star PatternMatchStar;
+        visit_pattern_match_as generic_visit_pattern_match_as PatternMatchAs;
+        visit_pattern_match_or generic_visit_pattern_match_or PatternMatchOr;
+        visit_type_param_type_var generic_visit_type_param_type_var TypeParamTypeVar;
+        visit_type_param_param_spec generic_visit_type_param_param_spec TypeParamParamSpec;
+        visit_type_param_type_var_tuple generic_visit_type_param_type_var_tuple TypeParamTypeVarTuple;
+    }
+}
+
+fn op_visit(src: &str) -> String {
+    let m = match parse_mod(src) {
+        Some(Mod::Module(m)) => m,
+        _ => return "noparse".into(),
+    };
+    let mut v = RecVisitor { ev: Vec::new() };
+    for s in m.body {
+        v.visit_stmt(s);
+    }
+    format!("ev={}", v.ev.join(","))
+}
+
+// ---------------------------------------------------------------- independent walk over `{:?}`
+fn interesting(name: &str) -> bool {
+    for p in ["Stmt", "Expr", "Pattern", "ExceptHandler"] {
+        if let Some(rest) = name.strip_prefix(p) {
+            if rest.chars().next().map_or(false, |c| c.is_ascii_uppercase()) {
+                return true;
             }
         }
+    }
+    false
+}
+
+/// every `Name { range: R` occurrence outside string literals, in textual (= pre-) order
+fn walk_debug(d: &str) -> Vec<(String, String)> {
+    let b: Vec<char> = d.chars().collect();
+    let mut out = Vec::new();
+    let mut i = 0;
+    while i < b.len() {
+        let c = b[i];
+        if c == '"' {
+            i += 1;
+            while i < b.len() && b[i] != '"' {
+                if b[i] == '\\' {
+                    i += 1;
+                }
+                i += 1;
+            }
+            i += 1;
+        } else if c == '\'' {
+            // char literal (not produced by the AST's Debug, handled for safety)
+            i += 1;
+            if i < b.len() && b[i] == '\\' {
+                i += 1;
+            }
+            i += 2;
+        } else if c.is_ascii_alphabetic() || c == '_' {
+            let st = i;
+            while i < b.len() && (b[i].is_ascii_alphanumeric() || b[i] == '_') {
+                i += 1;
+            }
+            let name: String = b[st..i].iter().collect();
+            let pat: Vec<char> = " { range: ".chars().collect();
+            if i + pat.len() <= b.len() && b[i..i + pat.len()] == pat[..] {
+                let mut j = i + pat.len();
+                let rs = j;
+                while j < b.len() && b[j] != ',' && b[j] != ' ' {
+                    j += 1;
+                }
+                let r: String = b[rs..j].iter().collect();
+                out.push((name, if r == "()" { "-".to_string() } else { r }));
+                i = j;
+            }
+        } else {
+            i += 1;
+        }
+    }
+    out
+}
+
+fn op_walk(src: &str) -> String {
+    let m = match parse_mod(src) {
+        Some(Mod::Module(m)) => m,
+        _ => return "noparse".into(),
+    };
+    let mut ev = Vec::new();
+    for s in &m.body {
+        for (k, r) in walk_debug(&format!("{:?}", s)) {
+            if interesting(&k) {
+                ev.push(format!("{}@{}", k, r));
+            }
+        }
+    }
+    format!("ev={}", ev.join(","))
+}
+
+fn op_ranges(src: &str) -> String {
+    let m = match parse_mod(src) {
+        Some(m) => m,
+        None => return "noparse".into(),
+    };
+    let rs: Vec<String> = walk_debug(&format!("{:?}", m))
+        .into_iter()
+        .filter(|(_, r)| r != "-")
+        .map(|(_, r)| r)
+        .collect();
+    format!("ranges={}", rs.join(","))
+}
+
+// ---------------------------------------------------------------- optimiser
+fn op_opt(src: &str) -> String {
+    let m = match parse_mod(src) {
+        Some(m) => m,
+        None => return "noparse".into(),
+    };
+    let once = match ConstantOptimizer::new().fold_mod(m) {
+        Ok(x) => x,
+        Err(e) => match e {},
+    };
+    let twice = match ConstantOptimizer::new().fold_mod(once.clone()) {
+        Ok(x) => x,
+        Err(e) => match e {},
+    };
+    format!("idem={} once={:?}", once == twice, once)
+}
+
+fn handle(ws: &[&str]) -> String {
+    if ws.len() < 2 {
+        return "bad-request".into();
+    }
+    let src = match unhex_str(ws[1]) {
+        Some(s) => s,
+        None => return "bad-request".into(),
+    };
+    // `op` or `op:x` (Mode::Expression) / `op:i` (Mode::Interactive)
+    let (op, mode) = match ws[0].split_once(':') {
+        Some((o, m)) => (o, m.bytes().next().unwrap_or(b'm')),
+        None => (ws[0], b'm'),
+    };
+    MODE.with(|m| m.set(mode));
+    match op {
+        "dbg" => match parse_mod(&src) {
+            Some(m) => format!("{:?}", m),
+            None => "noparse".into(),
+        },
+        "fold" => op_fold(&src),
+        "visit" => op_visit(&src),
+        "walk" => op_walk(&src),
+        "ranges" => op_ranges(&src),
+        "opt" => op_opt(&src),
         _ => "bad-request".into(),
     }
 }
-fn main() { proto_loop(handle); }
+
+fn main() {
+    proto_loop(handle);
+}
